@@ -87,6 +87,19 @@ fn all_entries(t: &[u8]) -> Vec<&'static str> {
     });
     if let Ok(s) = std::str::from_utf8(t) {
         ep!("dom_str", sonic_rs::from_str::<Value>(s).map(|v| sonic_rs::to_vec(&v)));
+        // the text itself (and every suffix start of its last 40 bytes) serialized as a string, a map key and an element: the
+        // escaper reads its source in 32-byte blocks and byte by byte; with the text ending at an unmapped page any read behind
+        // its last byte faults
+        ep!("ser_str", {
+            let _ = sonic_rs::to_string(s);
+            let _ = sonic_rs::to_string_pretty(&[s]);
+            let mut m = std::collections::BTreeMap::new();
+            m.insert(s, 1u8);
+            let _ = sonic_rs::to_vec(&m);
+            for k in (s.len().saturating_sub(40)..s.len()).filter(|k| s.is_char_boundary(*k)) {
+                let _ = sonic_rs::to_string(&s[k..]);
+            }
+        });
         ep!("lazy_str", sonic_rs::from_str::<LazyValue>(s).map(|v| (v.as_str().map(|x| x.len()), sonic_rs::to_string(&v))));
     }
     ep!("sj", sonic_rs::from_slice::<serde_json::Value>(t));
